@@ -18,6 +18,8 @@ def run(res, pool, tier, seed):
                 dict(module="MC_Dist.tla", tag="lat2", invariants=INVS, timeout=3600,
                      constants=dict(B=2, KA=set(KINDS), KB=set(KINDS), SEED=seed % 1000, NSHARD=4))]
     engine.run_jobs(res, jobs, pool)
+    import traces
+    traces.run_for(res, ["driver"], {"C10"}, seed=seed + 5, nsessions=150 if tier == "quick" else 2500)
 
 
 def replay_case(case, tag, rng, tier):
